@@ -191,7 +191,7 @@ func run(t *vk.T) {
 	}
 
 	// scale probes (thorough tier): a handful of fixed large inputs, one entry point each
-	if !t.Quick() && os.Getenv("C08_CASES") == "" {
+	if !t.Quick() && (os.Getenv("C08_CASES") == "" || os.Getenv("C08_PROBES") != "") {
 		ps := scaleProbes(nCases)
 		var pw sync.WaitGroup
 		for i := range ps {
